@@ -15,13 +15,17 @@
 (***************************************************************************)
 EXTENDS Integers, Sequences, FiniteSets, TLC
 
-CONSTANTS NFrames, FrameLen, HeaderLen, GarbageStrings, Defects
+CONSTANTS NFrames, FrameLen, HeaderLen, GarbageStrings, Defects,
+          MaxFaults     \* how many times the source may answer a refill with an error (Interrupted, or a transient I/O error)
 
 VARIABLES input,       \* sequence of tokens: [f |-> frame id or 0, k |-> position in frame, b |-> "FF" | "S" | "x"]
           cur,         \* next unread token (1-based)
           returned,    \* frame ids handed to the caller, in order
-          status       \* "run" | "eof"
-vars == <<input, cur, returned, status>>
+          status,      \* "run" | "eof"
+          faults,      \* source errors still available
+          injected,    \* transient I/O errors (not Interrupted) the source has answered with
+          reported     \* read() calls that returned an I/O error to the caller
+vars == <<input, cur, returned, status, faults, injected, reported>>
 
 FrameTokens(i) == [k \in 1..FrameLen |-> [f |-> i, k |-> k, b |-> IF k = 1 THEN "FF" ELSE IF k = 2 THEN "S" ELSE "x"]]
 GarbageTokens(g) == [j \in 1..Len(g) |-> [f |-> 0, k |-> 0, b |-> g[j]]]
@@ -31,30 +35,48 @@ Build(gs, i) == IF i > NFrames THEN GarbageTokens(gs[NFrames + 1])
 
 Init == /\ \E gs \in [1..(NFrames + 1) -> GarbageStrings] : input = Build(gs, 1)
         /\ cur = 1 /\ returned = <<>> /\ status = "run"
+        /\ faults = MaxFaults /\ injected = 0 /\ reported = 0
 
 NextFF(from) == IF \E j \in from..Len(input) : input[j].b = "FF"
                 THEN CHOOSE j \in from..Len(input) : input[j].b = "FF" /\ \A i \in from..(j - 1) : input[i].b # "FF"
                 ELSE 0
+Clip(x) == IF x > Len(input) THEN Len(input) + 1 ELSE x
 
-(* one call of read(): the set of possible [cur, out]; out = frame id, or 0 for the EOF error.   *)
-(* A failed header attempt on sync-like garbage has consumed between 1 and HeaderLen bytes      *)
-(* after the 0xFF (how many depends on where the header parse gives up).                        *)
-RECURSIVE ScanSet(_)
-ScanSet(c) ==
+(* one call of read(): the set of possible [cur, out, n, inj]; out = frame id, 0 for the EOF error, -1 for an I/O error handed to the   *)
+(* caller; n = source errors left, inj = transient errors injected during the call.                                                    *)
+(* A failed header attempt on sync-like garbage has consumed between 1 and HeaderLen bytes after the 0xFF (how many depends on where   *)
+(* the header parse gives up).  The source may answer any refill with an error:                                                        *)
+(*  - Interrupted while peeking the byte after a consumed 0xFF: the peek is asked again (defect "interrupted_rescans": the scan for    *)
+(*    0xFF starts over BEHIND the consumed byte - the frame whose sync code the refill split is lost); elsewhere std retries it;       *)
+(*  - a transient I/O error while a header is parsed or a frame body read: read() returns it, having consumed part of the frame        *)
+(*    (defect "header_io_error_swallowed": taken for a false sync, the scan goes on and nobody is told).                              *)
+RECURSIVE ScanSet(_, _, _)
+ScanSet(c, n, inj) ==
     LET j == NextFF(c) IN
-    IF j = 0 \/ j = Len(input) THEN {[cur |-> Len(input) + 1, out |-> 0]}          \* eof looking for frame sync
-    ELSE IF input[j + 1].b # "S" THEN ScanSet(j + 1)                                  \* peeked, not consumed
-    ELSE IF input[j].f # 0 /\ input[j].k = 1
-         THEN {[cur |-> j + FrameLen, out |-> input[j].f]}                           \* a genuine frame start
-         ELSE \* sync-like garbage: the header attempt eats bytes, then the scan goes on
-              IF "fake_sync_consumes_nothing" \in Defects THEN ScanSet(j + 1)
-              ELSE UNION {ScanSet(IF j + k > Len(input) THEN Len(input) + 1 ELSE j + k) : k \in 2..HeaderLen}
+    IF j = 0 \/ j = Len(input) THEN {[cur |-> Len(input) + 1, out |-> 0, n |-> n, inj |-> inj]}     \* eof looking for frame sync
+    ELSE
+    (IF n > 0 /\ "interrupted_rescans" \in Defects THEN ScanSet(j + 1, n - 1, inj) ELSE {})         \* Interrupted at the peek
+    \cup
+    (IF input[j + 1].b # "S" THEN ScanSet(j + 1, n, inj)                                              \* peeked, not consumed
+     ELSE IF input[j].f # 0 /\ input[j].k = 1
+          THEN {[cur |-> j + FrameLen, out |-> input[j].f, n |-> n, inj |-> inj]}                      \* a genuine frame start
+               \cup (IF n = 0 THEN {}
+                     ELSE \* the source fails inside the header ...
+                          (IF "header_io_error_swallowed" \in Defects
+                           THEN UNION {ScanSet(Clip(j + k), n - 1, inj + 1) : k \in 2..HeaderLen}
+                           ELSE {[cur |-> Clip(j + k), out |-> -1, n |-> n - 1, inj |-> inj + 1] : k \in 2..HeaderLen})
+                          \* ... or inside the frame body
+                          \cup {[cur |-> Clip(j + k), out |-> -1, n |-> n - 1, inj |-> inj + 1] : k \in HeaderLen..FrameLen})
+          ELSE \* sync-like garbage: the header attempt eats bytes, then the scan goes on
+               IF "fake_sync_consumes_nothing" \in Defects THEN ScanSet(j + 1, n, inj)
+               ELSE UNION {ScanSet(Clip(j + k), n, inj) : k \in 2..HeaderLen})
 
 Read == /\ status = "run"
-        /\ \E r \in ScanSet(cur) :
-           /\ cur' = r.cur
-           /\ IF r.out = 0 THEN status' = "eof" /\ UNCHANGED returned
-              ELSE returned' = Append(returned, r.out) /\ UNCHANGED status
+        /\ \E r \in ScanSet(cur, faults, 0) :
+           /\ cur' = r.cur /\ faults' = r.n /\ injected' = injected + r.inj
+           /\ IF r.out = 0 THEN status' = "eof" /\ UNCHANGED <<returned, reported>>
+              ELSE IF r.out = -1 THEN reported' = reported + 1 /\ UNCHANGED <<returned, status>>
+              ELSE returned' = Append(returned, r.out) /\ UNCHANGED <<status, reported>>
         /\ UNCHANGED input
 Spec == Init /\ [][Read]_vars
 
@@ -62,5 +84,9 @@ Spec == Init /\ [][Read]_vars
 InOrderSubsequence == \A i \in 1..(Len(returned) - 1) : returned[i] < returned[i + 1]
 OnlyWrittenFrames == \A i \in 1..Len(returned) : returned[i] \in 1..NFrames
 HasSyncPair == \E j \in 1..(Len(input) - 1) : input[j].f = 0 /\ input[j].b = "FF" /\ input[j + 1].b = "S"
-SyncFreeGarbageCostsNothing == (status = "eof" /\ ~HasSyncPair) => returned = [i \in 1..NFrames |-> i]
+\* (Interrupted answers of the source included: they cost nothing either)
+SyncFreeGarbageCostsNothing == (status = "eof" /\ ~HasSyncPair /\ injected = 0) => returned = [i \in 1..NFrames |-> i]
+(* C13 for the stream reader: every I/O error of the source came back to the caller, and only a reported error costs a frame *)
+ErrorsPropagated == injected = reported
+LossesAreReported == (status = "eof" /\ ~HasSyncPair) => Len(returned) >= NFrames - reported
 =======================================================================
